@@ -19,3 +19,11 @@ Definition solar_show (c : solar_case) :=
   match c with
   | SolarCase bs _ _ _ _ => let r := solar_run solar_start bs in (notable (snd r), fst r)
   end.
+
+(* C04 suite: additionally push every reply the IMPLEMENTATION produced through the Coq decoder *)
+Definition solar_ok_wf (c : solar_case) : bool :=
+  solar_ok c &&
+  match c with
+  | SolarCase _ obs _ _ _ =>
+      forallb (fun p => match snd p with OReply r => solar_reply_wfb r | _ => true end) obs
+  end.
